@@ -56,6 +56,16 @@ type ipsetInput struct {
 	Tag        string  `json:"tag"`
 }
 
+// maxViolations caps what one driver run reports: every reported violation becomes a replay file.
+const maxViolations = 4
+
+func violate(res *vh.Result, key, what string, replay any) {
+	res.Count("violations_seen", 1)
+	if res.NViolations() < maxViolations {
+		res.Violate(key, what, replay)
+	}
+}
+
 // ---- bit helpers (bit 0 = most significant bit of the address) -------------
 
 func setBits(b []byte, off, width int, val uint64) {
@@ -501,7 +511,7 @@ func runIpsetCase(res *vh.Result, in *ipsetInput, c *mCase, pl placement, r *ran
 			if want {
 				kind = "rejects an address inside a configured CIDR"
 			}
-			res.Violate(fmt.Sprintf("ipset|%s|%s|%s", strings.Join(cidrs, ","), p.addr, form),
+			violate(res, fmt.Sprintf("ipset|%s|%s|%s", strings.Join(cidrs, ","), p.addr, form),
 				fmt.Sprintf("ipset %s: New(%q).%s(%s) = %v, naive scan = %v [%s, placement %s]",
 					kind, cidrs, form, p.addr, got, want, p.what, pl.Name),
 				ipsetReplay{Kind: "ipset", CIDRs: cidrs, Addr: p.addr.String(), Form: form, Got: got, Want: want,
@@ -582,7 +592,7 @@ func TestIpSetOne(t *testing.T) {
 	}
 	for form, got := range askAll(set, a) {
 		if got != want {
-			res.Violate(fmt.Sprintf("ipset|%s|%s|%s", strings.Join(rp.CIDRs, ","), a, form),
+			violate(res, fmt.Sprintf("ipset|%s|%s|%s", strings.Join(rp.CIDRs, ","), a, form),
 				fmt.Sprintf("ipset: New(%q).%s(%s) = %v, naive scan = %v", rp.CIDRs, form, a, got, want), rp)
 		}
 	}
